@@ -368,7 +368,8 @@ func init() {
 						continue
 					}
 					spec := gen.TLSLeaf(t, sh.dns...)
-					if si%4 == 3 || si == 12 {
+					evOnion := si%4 == 3 || si == 12
+					if evOnion {
 						// the same names on an EV certificate that also carries onion names (more lints look at the names);
 						// as many as make the number of entries NOT a power of two (the parser's slice then has spare capacity)
 						names := append(append([]string{}, sh.dns...), "pg6mmjiyjmcrsslvykfwnntlaru7p5svn6y2ymmju6nubxndf4pscryd.onion")
@@ -379,13 +380,13 @@ func init() {
 						spec.ReplaceExt(gen.ExtPolicies(gen.OIDPolEV))
 						sh.dns = names
 					}
-					if si%5 == 2 {
+					if si%5 == 2 && !evOnion { // (the EV + onion variant keeps its EV policy: the onion lints only run under it)
 						// a subscriber certificate that is a TLS server certificate by its POLICY only (an EKU extension
 						// without serverAuth; the reserved policy OID first, a private one behind it)
 						spec.ReplaceExt(gen.ExtEKU(false, gen.OIDEkuClient))
 						spec.ReplaceExt(gen.ExtPolicies([]string{gen.OIDPolDV, gen.OIDPolOV, gen.OIDPolIV}[si%3], "1.3.6.1.4.1.55555.1.1"))
 					}
-					if si%7 == 1 || si%7 == 4 {
+					if (si%7 == 1 || si%7 == 4) && !evOnion {
 						// a server-auth certificate (by EKU) that ALSO asserts a policy of another CA/B Forum document (S/MIME,
 						// code signing) or only foreign policies: still a TLS server certificate
 						extra := []string{"2.23.140.1.5.1.1", "2.23.140.1.5.2.2", "2.23.140.1.5.3.3", "2.23.140.1.5.4.1", gen.OIDPolCS, gen.OIDPolEVCS, "1.3.6.1.4.1.55555.1.1"}[(si+int(t.Unix()/7))%7]
